@@ -3,6 +3,9 @@
   Property theorems only; lemmas live in XMT/Codec*.lean.
 -/
 import XMT.CodecPrefix
+import XMT.CodecTypedLemmas
+import XMT.CodecIO
+import XMT.CodecClasses
 namespace XMT.Props.C10
 open XMT XMT.Codec
 
@@ -82,5 +85,302 @@ example : decAll chunkPrim [.u16, .bool] [1, 2, 1, 9] = .ok ([.u16 258, .bool tr
 example : decAll streamPrim [.u16, .bool] [[1], [2, 1, 9]] = .ok ([.u16 258, .bool true], [[9]]) := by
   rfl
 example : decAll chunkPrim [.u16, .u32] [1, 2, 1, 9] = .error (.eof, [.u16 258]) := by rfl
+
+/-! ## Extension (round 3): the whole exported codec surface, the length-prefix classes and
+non-canonical headers, and the stream reader over an `io.Reader` described call by call. -/
+
+/-! ### 1. Coverage of the codec surface (regenerated method lists of `data/*.go`) -/
+
+/-- Every method of the `data.Reader` and `data.Writer` interfaces (as parsed from `data/data.go`
+on this run) is in the coverage table `surface`, and where the table names a model function the
+Go signature is the one that function models (`ReadInt16` is `(*int16) error`, …). -/
+theorem surface_covers_interfaces :
+    coversIface Facts.c10_ifaceReader = true ∧ coversIface Facts.c10_ifaceWriter = true := by
+  constructor <;> decide
+
+/-- Both implementations provide every interface method with the interface's signature:
+`*data.Chunk` both interfaces, the stream `reader` the Reader, the stream `writer` the Writer. -/
+theorem implementations_provide_interfaces :
+    provides Facts.c10_methodsChunk Facts.c10_ifaceReader = true ∧
+    provides Facts.c10_methodsChunk Facts.c10_ifaceWriter = true ∧
+    provides Facts.c10_methodsStreamReader Facts.c10_ifaceReader = true ∧
+    provides Facts.c10_methodsStreamWriter Facts.c10_ifaceWriter = true := by
+  refine ⟨?_, ?_, ?_, ?_⟩ <;> decide
+
+/-- No exported method of the three implementations is unaccounted for: each is an interface method
+or one of the listed `*Chunk` extras (byte-queue / positional / wire-form methods of C11, C01, C06). -/
+theorem surface_explains_every_method :
+    explained Facts.c10_methodsChunk (Facts.c10_ifaceReader ++ Facts.c10_ifaceWriter) chunkExtras = true ∧
+    explained Facts.c10_methodsStreamReader Facts.c10_ifaceReader [] = true ∧
+    explained Facts.c10_methodsStreamWriter Facts.c10_ifaceWriter [] = true := by
+  refine ⟨?_, ?_, ?_⟩ <;> decide
+
+example : lookup "ReadInt16" = some (.readPtr .i16) ∧ lookup "WriteFloat64" = some (.write .f64) ∧
+    (Cover.readPtr .i16).sig = some "(*int16) error" := by decide
+
+/-- Go's conversions around the primitive codec lose nothing: `intW(uintW(n)) = n` for every `n`
+of the signed type, for `int` through the 64-bit wire form on this platform. -/
+theorem signed_casts_roundtrip :
+    (∀ n, fitsS 8 n → toS 8 (toU 8 n) = n) ∧ (∀ n, fitsS 16 n → toS 16 (toU 16 n) = n) ∧
+    (∀ n, fitsS 32 n → toS 32 (toU 32 n) = n) ∧ (∀ n, fitsS 64 n → toS 64 (toU 64 n) = n) ∧
+    (∀ n, fitsS Facts.c10_intSize n → toS Facts.c10_intSize (toU 64 n) = n) :=
+  ⟨fun n h => toS_toU (by simp) n h, fun n h => toS_toU (by simp) n h,
+   fun n h => toS_toU (by simp) n h, fun n h => toS_toU (by simp) n h, int_cast_roundtrip⟩
+
+example : toU 16 (-2) = 65534 ∧ toS 16 65534 = -2 ∧ toS 8 128 = -128 ∧ fitsS 8 (-128) ∧ ¬ fitsS 8 128 := by
+  decide
+
+/-- Both writers emit byte-identical encodings for every Go-level value (all 16 kinds). -/
+theorem writers_agree_typed (gs : List GVal) : (encAllGStream gs).flatten = encAllGChunk gs := by
+  rw [encAllGStream_lower, encAllGChunk_lower, writers_agree_all]
+
+/-- Go-level round trip, (either writer) × Chunk reader: the caller gets back exactly the values
+written — signed, platform-width, float bit patterns, strings — and exactly the written bytes are
+consumed. -/
+theorem roundtrip_typed_chunkReader (gs : List GVal) (hg : ∀ g ∈ gs, g.WF) (rest : Bytes) :
+    decAllG chunkPrim (gs.map GVal.kind) (encAllGChunk gs ++ rest) = .ok (gs, rest) ∧
+    decAllG chunkPrim (gs.map GVal.kind) ((encAllGStream gs).flatten ++ rest) = .ok (gs, rest) := by
+  obtain ⟨s', h1, h2, _⟩ := decAllG_ok chunk_lawful gs hg (encAllGChunk gs ++ rest) rest trivial rfl
+  simp only [id] at h2; subst h2
+  exact ⟨h1, by rw [writers_agree_typed]; exact h1⟩
+
+/-- Go-level truncation, Chunk reader. -/
+theorem truncated_typed_chunkReader (gs : List GVal) (hg : ∀ g ∈ gs, g.WF) (p : Bytes)
+    (hp : p <+: encAllGChunk gs) (hne : p ≠ encAllGChunk gs) :
+    ∃ e k, decAllG chunkPrim (gs.map GVal.kind) p = .error (e, gs.take k) :=
+  decAllG_prefix_err chunk_lawful gs hg p trivial hp (strict_prefix_length hp hne)
+
+/-! ### 3. The stream reader over an `io.Reader` described call by call (`IOStream`): `(0, nil)`
+reads anywhere, `io.EOF` together with the final data, `(0, io.EOF)`, any splitting. -/
+
+/-- (either writer) × stream reader for **every** behaviour of the underlying `io.Reader` that keeps
+the contract "no data after `io.EOF`" (`EofOK`): any splitting into short reads, no-progress
+`(0, nil)` reads anywhere, the final bytes delivered together with `io.EOF`. -/
+theorem roundtrip_ioReader (vs : List Val) (hv : ∀ v ∈ vs, v.WF) (rest : Bytes)
+    (cs : IOStream) (hok : EofOK cs)
+    (hcs : absIO cs = encAllChunk vs ++ rest ∨ absIO cs = (encAllStream vs).flatten ++ rest) :
+    ∃ cs', decAll ioPrim (vs.map Val.ty) cs = .ok (vs, cs') ∧ absIO cs' = rest := by
+  have h : absIO cs = encAllChunk vs ++ rest := by
+    rcases hcs with h | h
+    · exact h
+    · rw [h, writers_agree_all]
+  obtain ⟨s', h1, h2, _⟩ := decAll_ok io_lawful vs hv cs rest hok h
+  exact ⟨s', h1, h2⟩
+
+/-- Every strict prefix, delivered in any of those ways, makes the stream reader stop with an error
+after values that were really written. -/
+theorem truncated_ioReader (vs : List Val) (hv : ∀ v ∈ vs, v.WF) (cs : IOStream)
+    (hok : EofOK cs) (hp : absIO cs <+: encAllChunk vs) (hs : absIO cs ≠ encAllChunk vs) :
+    ∃ e k, decAll ioPrim (vs.map Val.ty) cs = .error (e, vs.take k) :=
+  decAll_prefix_err io_lawful vs hv cs hok hp (strict_prefix_length hp hs)
+
+/-- The same at the Go level (all 16 kinds). -/
+theorem roundtrip_typed_ioReader (gs : List GVal) (hg : ∀ g ∈ gs, g.WF) (rest : Bytes)
+    (cs : IOStream) (hok : EofOK cs)
+    (hcs : absIO cs = encAllGChunk gs ++ rest ∨ absIO cs = (encAllGStream gs).flatten ++ rest) :
+    ∃ cs', decAllG ioPrim (gs.map GVal.kind) cs = .ok (gs, cs') ∧ absIO cs' = rest := by
+  have h : absIO cs = encAllGChunk gs ++ rest := by
+    rcases hcs with h | h
+    · exact h
+    · rw [h, writers_agree_typed]
+  obtain ⟨s', h1, h2, _⟩ := decAllG_ok io_lawful gs hg cs rest hok h
+  exact ⟨s', h1, h2⟩
+
+theorem truncated_typed_ioReader (gs : List GVal) (hg : ∀ g ∈ gs, g.WF) (cs : IOStream)
+    (hok : EofOK cs) (hp : absIO cs <+: encAllGChunk gs) (hs : absIO cs ≠ encAllGChunk gs) :
+    ∃ e k, decAllG ioPrim (gs.map GVal.kind) cs = .error (e, gs.take k) :=
+  decAllG_prefix_err io_lawful gs hg cs hok hp (strict_prefix_length hp hs)
+
+/-- `io.ReadFull` as modelled returns exactly the next `k` bytes of everything the reader will
+deliver (fewer only at the end) and leaves the rest, for every script that keeps the contract. -/
+theorem readFull_exact (cs : IOStream) (k : Nat) (hok : EofOK cs) :
+    (readFullIO cs k).1 = (absIO cs).take k ∧ absIO (readFullIO cs k).2 = (absIO cs).drop k ∧
+    EofOK (readFullIO cs k).2 :=
+  ⟨readFullIO_fst cs k hok, readFullIO_snd cs k hok, readFullIO_inv cs k hok⟩
+
+/-- The old piece-list streams are the scripts without flags. -/
+theorem stream_is_io_script (cs : Stream) : EofOK (ofStream cs) ∧ absIO (ofStream cs) = cs.flatten :=
+  ⟨ofStream_eofOK cs, absIO_ofStream cs⟩
+
+/- non-vacuity: a script with a no-progress read, a split 16-bit value and the last byte delivered
+together with io.EOF, followed by further EOFs -/
+example : EofOK [⟨[], false⟩, ⟨[1], false⟩, ⟨[], false⟩, ⟨[2, 1], true⟩, ⟨[], true⟩] := by decide
+example : decAllG ioPrim [.i16, .bool]
+    [⟨[], false⟩, ⟨[0xFF], false⟩, ⟨[], false⟩, ⟨[0xFE, 1], true⟩, ⟨[], true⟩] =
+    .ok ([.i16 (-2), .bool true], [⟨[], true⟩]) := by rfl
+example : decAllG ioPrim [.u16] [⟨[1], true⟩] = .error (.unexpectedEOF, []) := by rfl
+example : decAllG ioPrim [.u16] [⟨[], false⟩, ⟨[], true⟩] = .error (.eof, []) := by rfl
+
+/-- Pointer readers `ReadX(p *T) error` of both readers: a complete encoding sets the destination
+to the written value whatever it held before; a strict prefix reports an error and leaves the
+destination untouched (nothing fabricated through the pointer either). -/
+theorem pointer_read (g old : GVal) (hg : g.WF) :
+    (∀ rest, readInto chunkPrim g.kind old (encGChunk g ++ rest) = (g, .ok rest)) ∧
+    (∀ p, p <+: encGChunk g → p ≠ encGChunk g → ∃ e, readInto chunkPrim g.kind old p = (old, .error e)) ∧
+    (∀ cs rest, EofOK cs → absIO cs = encGChunk g ++ rest →
+      ∃ cs', readInto ioPrim g.kind old cs = (g, .ok cs') ∧ absIO cs' = rest) ∧
+    (∀ cs, EofOK cs → absIO cs <+: encGChunk g → absIO cs ≠ encGChunk g →
+      ∃ e, readInto ioPrim g.kind old cs = (old, .error e)) := by
+  refine ⟨?_, ?_, ?_, ?_⟩
+  · intro rest
+    obtain ⟨s', h1, h2, _⟩ := readInto_ok chunk_lawful g old hg (encGChunk g ++ rest) rest trivial rfl
+    simp only [id] at h2; subst h2; exact h1
+  · intro p hp hne
+    exact readInto_prefix chunk_lawful g old hg p trivial hp (strict_prefix_length hp hne)
+  · intro cs rest hok h
+    obtain ⟨s', h1, h2, _⟩ := readInto_ok io_lawful g old hg cs rest hok h
+    exact ⟨s', h1, h2⟩
+  · intro cs hok hp hne
+    exact readInto_prefix io_lawful g old hg cs hok hp (strict_prefix_length hp hne)
+
+example : readInto chunkPrim .i32 (.i32 7) [0xFF, 0xFF] = (.i32 7, .error .eof) ∧
+    readInto chunkPrim .i32 (.i32 7) [0xFF, 0xFF, 0xFF, 0xFE, 9] = (.i32 (-2), .ok [9]) := ⟨rfl, rfl⟩
+
+/-- `data.ReadStringList` into a destination that already holds `old` (both readers): the result
+is `slIntoResult old l` — the written list only if the destination was shorter than it (or the
+list is non-empty and exactly as long); an empty list leaves the destination as it is and a shorter
+list keeps the destination's tail (the documented "resized only if not large enough"). -/
+theorem strlist_into (l old : List Bytes) (hl1 : l.length < 2 ^ (Facts.c10_intSize - 1))
+    (hl2 : ∀ b ∈ l, b.length ≤ Facts.maxSlice) (rest : Bytes) :
+    decStrsInto chunkPrim old (encChunk (.strs l) ++ rest) = (slIntoResult old l, .ok rest) ∧
+    (∀ cs, EofOK cs → absIO cs = encChunk (.strs l) ++ rest →
+      ∃ cs', decStrsInto ioPrim old cs = (slIntoResult old l, .ok cs') ∧ absIO cs' = rest) := by
+  constructor
+  · obtain ⟨s', h1, h2, _⟩ := decStrsInto_ok chunk_lawful l old hl1 hl2
+      (encChunk (.strs l) ++ rest) rest trivial (by simp [encChunk])
+    simp only [id] at h2; subst h2; exact h1
+  · intro cs hok h
+    obtain ⟨s', h1, h2, _⟩ := decStrsInto_ok io_lawful l old hl1 hl2 cs rest hok
+      (by rw [h]; simp [encChunk])
+    exact ⟨s', h1, h2⟩
+
+/-- Into a fresh (empty) destination the result is the written list. -/
+theorem strlist_into_fresh (l : List Bytes) : slIntoResult [] l = l := by
+  unfold slIntoResult
+  by_cases h : l = []
+  · simp [h]
+  · have : ¬ (0 ≥ l.length) := by
+      intro h0; exact h (List.length_eq_zero_iff.mp (by omega))
+    simp [h, this]
+
+/-- Witness of the stale-destination behaviour: the empty list read into `["a"]` leaves `["a"]`,
+`["x"]` read into `["a","b"]` leaves `["x","b"]`. -/
+theorem strlist_into_stale_witness :
+    decStrsInto chunkPrim [[0x61]] (encChunk (.strs [])) = ([[0x61]], .ok []) ∧
+    decStrsInto chunkPrim [[0x61], [0x62]] (encChunk (.strs [[0x78]])) = ([[0x78], [0x62]], .ok []) :=
+  ⟨rfl, rfl⟩
+
+/-! ### 2. Length-prefix classes and non-canonical headers -/
+
+/-- The three writer switches (`(*Chunk).WriteBytes`, `(*writer).WriteBytes`, `WriteStringList`) and
+the three reader switches (`(*Chunk).Bytes`, `(*reader).Bytes`, `ReadStringList`), as extracted from
+the source on this run, are the expected ones; both `Bytes()` check `l == 0` then `l > MaxSlice`. -/
+theorem prefix_switches_tie :
+    Facts.c10_swChunkWriter = expectedSwitch ∧ Facts.c10_swStreamWriter = expectedSwitch ∧
+    Facts.c10_swListWriter = expectedSwitch ∧
+    Facts.c10_casesChunkBytes = expectedCases ∧ Facts.c10_casesStreamBytes = expectedCases ∧
+    Facts.c10_casesListReader = expectedCases ∧
+    Facts.c10_guardsChunkBytes.take 2 = ["l == 0", "l > MaxSlice"] ∧
+    Facts.c10_guardsStreamBytes.take 2 = ["l == 0", "l > MaxSlice"] := by
+  refine ⟨?_, ?_, ?_, ?_, ?_, ?_, ?_, ?_⟩ <;> decide
+
+/-- Each of the three extracted writer switches, run on any length / count, writes the model's
+header `lenPrefix l`: all writers select the same class. -/
+theorem prefix_class_of_every_writer (l : Nat) :
+    evalSwitch Facts.c10_swChunkWriter l = some (lenPrefix l) ∧
+    evalSwitch Facts.c10_swStreamWriter l = some (lenPrefix l) ∧
+    evalSwitch Facts.c10_swListWriter l = some (lenPrefix l) := by
+  obtain ⟨h1, h2, h3, _⟩ := prefix_switches_tie
+  rw [h1, h2, h3]
+  exact ⟨evalSwitch_expected l, evalSwitch_expected l, evalSwitch_expected l⟩
+
+/-- The class selection is monotone in the length: class, tag and header size never decrease. -/
+theorem prefix_class_monotone {a b : Nat} (h : a ≤ b) :
+    lenClass a ≤ lenClass b ∧ lenTag a ≤ lenTag b ∧ (lenPrefix a).length ≤ (lenPrefix b).length := by
+  refine ⟨lenClass_mono h, lenTag_mono h, ?_⟩
+  rw [lenPrefix_length, lenPrefix_length]
+  have := lenClass_mono h
+  omega
+
+/-- … and exact: the header is tag + big-endian length in the class's width, the class holds the
+length, and no narrower class would (so the switch flips exactly at 1, 2^8, 2^16, 2^32). -/
+theorem prefix_class_exact (l : Nat) (hl : l < 2^64) :
+    lenPrefix l = byteOf (lenTag l) :: beW (lenClass l) l ∧ l < 2 ^ (8 * lenClass l) ∧
+    ∀ w, (w = 0 ∨ w = 1 ∨ w = 2 ∨ w = 4) → w < lenClass l → ¬ l < 2 ^ (8 * w) :=
+  ⟨lenPrefix_eq l, lenClass_fits l hl, fun w hw hlt => lenClass_minimal l w hw hlt⟩
+
+example : (List.map lenClass [0, 1, 255, 256, 65535, 65536, 4294967295, 4294967296]) =
+    [0, 1, 1, 2, 2, 4, 4, 8] ∧
+    (List.map lenTag [0, 1, 255, 256, 65535, 65536, 4294967295, 4294967296]) = [0, 1, 1, 3, 3, 5, 5, 7] := by
+  decide
+
+/-- **Non-canonical headers are accepted** by both readers' `Bytes()`: any tag of a class (also the
+even tags 2/4/6/8 no writer emits) with any non-zero length that fits its field — e.g. a length
+below 256 behind a 2-, 4- or 8-byte field — followed by that many bytes decodes to those bytes,
+consuming exactly header + body. -/
+theorem noncanonical_accepted (t : UInt8) (w : Nat) (hw : widthOfTag t = some w) (hw0 : w ≠ 0)
+    (b : Bytes) (hb0 : b ≠ []) (hb : b.length ≤ Facts.maxSlice) (hl : b.length < 2 ^ (8 * w))
+    (rest : Bytes) :
+    decBytes chunkPrim (t :: (beW w b.length ++ (b ++ rest))) = .ok (b, rest) ∧
+    (∀ cs, EofOK cs → absIO cs = t :: (beW w b.length ++ (b ++ rest)) →
+      ∃ cs', decBytes ioPrim cs = .ok (b, cs') ∧ absIO cs' = rest) := by
+  constructor
+  · obtain ⟨s', h1, h2, _⟩ := decBytes_noncanonical chunk_lawful t w hw hw0 b hb0 hb hl
+      (t :: (beW w b.length ++ (b ++ rest))) rest trivial rfl
+    simp only [id] at h2; subst h2; exact h1
+  · intro cs hok h
+    obtain ⟨s', h1, h2, _⟩ := decBytes_noncanonical io_lawful t w hw hw0 b hb0 hb hl cs rest hok h
+    exact ⟨s', h1, h2⟩
+
+example : decBytes chunkPrim [3, 0, 2, 7, 8, 9] = .ok ([7, 8], [9]) ∧
+    decBytes chunkPrim [8, 0, 0, 0, 0, 0, 0, 0, 1, 7] = .ok ([7], []) ∧
+    widthOfTag 4 = some 2 := ⟨rfl, rfl, by decide⟩
+
+/-- A zero length behind a non-zero tag is refused by both readers' `Bytes()` with
+`io.ErrUnexpectedEOF` (the writers encode the empty value as the single byte 0). -/
+theorem noncanonical_zero_length_rejected (t : UInt8) (w : Nat) (hw : widthOfTag t = some w)
+    (hw0 : w ≠ 0) (rest : Bytes) :
+    decBytes chunkPrim (t :: (beW w 0 ++ rest)) = .error .unexpectedEOF ∧
+    (∀ cs, EofOK cs → absIO cs = t :: (beW w 0 ++ rest) → decBytes ioPrim cs = .error .unexpectedEOF) :=
+  ⟨decBytes_zeroLen chunk_lawful t w hw hw0 _ rest trivial rfl,
+   fun cs hok h => decBytes_zeroLen io_lawful t w hw hw0 cs rest hok h⟩
+
+/-- An announced length above `MaxSlice` is refused with `ErrTooLarge` by both readers, whatever
+follows (nothing is allocated or read for it). -/
+theorem overlong_rejected (t : UInt8) (w : Nat) (hw : widthOfTag t = some w) (hw0 : w ≠ 0)
+    (l : Nat) (hl : l < 2 ^ (8 * w)) (hbig : l > Facts.maxSlice) (rest : Bytes) :
+    decBytes chunkPrim (t :: (beW w l ++ rest)) = .error .tooLarge ∧
+    (∀ cs, EofOK cs → absIO cs = t :: (beW w l ++ rest) → decBytes ioPrim cs = .error .tooLarge) :=
+  ⟨decBytes_tooLarge chunk_lawful t w hw hw0 l hl hbig _ rest trivial rfl,
+   fun cs hok h => decBytes_tooLarge io_lawful t w hw hw0 l hl hbig cs rest hok h⟩
+
+/-- A tag above 8 is refused with `ErrInvalidType` by both readers. -/
+theorem unknown_tag_rejected (t : UInt8) (hw : widthOfTag t = none) (rest : Bytes) :
+    decBytes chunkPrim (t :: rest) = .error .invalidType ∧
+    (∀ cs, EofOK cs → absIO cs = t :: rest → decBytes ioPrim cs = .error .invalidType) :=
+  ⟨decBytes_badTag chunk_lawful t hw _ rest trivial rfl,
+   fun cs hok h => decBytes_badTag io_lawful t hw cs rest hok h⟩
+
+example : widthOfTag 9 = none ∧ widthOfTag 255 = none ∧ widthOfTag 7 = some 8 := by decide
+
+/-- `ReadStringList` accepts non-canonical count headers too, and — unlike `Bytes()` — a zero count
+behind a non-zero tag (the empty list). -/
+theorem noncanonical_count_accepted (t : UInt8) (w : Nat) (hw : widthOfTag t = some w) (hw0 : w ≠ 0)
+    (l : List Bytes) (hl63 : l.length < 2^63) (hl : ∀ b ∈ l, b.length ≤ Facts.maxSlice)
+    (hfit : l.length < 2 ^ (8 * w)) (rest : Bytes) :
+    decStrs chunkPrim (t :: (beW w l.length ++ (l.flatMap encBytesChunk ++ rest))) = .ok (l, rest) ∧
+    (∀ cs, EofOK cs → absIO cs = t :: (beW w l.length ++ (l.flatMap encBytesChunk ++ rest)) →
+      ∃ cs', decStrs ioPrim cs = .ok (l, cs') ∧ absIO cs' = rest) := by
+  constructor
+  · obtain ⟨s', h1, h2, _⟩ := decStrs_noncanonical chunk_lawful t w hw hw0 l hl63 hl hfit
+      (t :: (beW w l.length ++ (l.flatMap encBytesChunk ++ rest))) rest trivial rfl
+    simp only [id] at h2; subst h2; exact h1
+  · intro cs hok h
+    obtain ⟨s', h1, h2, _⟩ := decStrs_noncanonical io_lawful t w hw hw0 l hl63 hl hfit cs rest hok h
+    exact ⟨s', h1, h2⟩
+
+example : decStrs chunkPrim [4, 0, 0, 9] = .ok ([], [9]) ∧
+    decStrs chunkPrim [5, 0, 0, 0, 1, 2, 1, 7] = .ok ([[7]], []) := ⟨rfl, rfl⟩
+
 
 end XMT.Props.C10
